@@ -435,7 +435,7 @@ impl Property for C07 {
         "exploration"
     }
     fn rule(&self) -> String {
-        "A case stages a secure server holding every protocol state at once (unknown address, pending address, connected victim, connected bystander; clients requesting, responding, connected, disconnected) and presents non-authentic datagrams to the server from every source-address class and to every client: mutations (bit flips in prefix / sequence / body / tag, truncations, extensions, prefix replacement) of genuine datagrams of any session and direction, genuine datagrams replayed or presented at the wrong endpoint, well-formed prefixes with boundary lengths and all-zero / all-ff sequence bytes, random bytes 0..1400; silence is interleaved so a refreshed timer shows. Enumerated: all 256 prefix bytes x 13 boundary lengths x 2 fills x 7 targets; every single-bit flip and every truncation of eight fresh genuine datagrams (payload, keep-alive, response, challenge, request; both directions) presented to the live endpoint they were meant for. Tokens: raw bytes and field-wise mutations of valid serialisations (address count 0/33/2^32-1, type tags 0/1/2/3/255, expire < create, zero/negative timeouts, truncations) through ConnectToken::read -> NetcodeClient::new -> update / process_packet / generate_payload_packet / disconnect. Oracles: no call unwinds (overflow checks on); a non-authentic datagram (by provenance) yields neither Payload nor ClientConnected nor ClientDisconnected, client process_packet returns None, and the snapshot of clients_id / connected_clients / per-client addr, user data, connectedness and time_since_last_received_packet (server) and connected / connecting / reason / time_since_last_received_packet / server_addr (every client) is unchanged; afterwards a genuine payload still surfaces in both directions and the pending client completes its handshake. Non-trivial: a datagram of >= 18 bytes presented from a known address or to a client past the request state (reaches the keyed decode path), or a mutated token that parses. Distinct = hash of the decoded case.".into()
+        "Floods (enumerated): every target endpoint is handed all 256 prefix bytes twice in a row at each length class, 512 hostile datagrams with nothing genuine in between, under the same per-datagram oracles, then genuine traffic must still work. A case stages a secure server holding every protocol state at once (unknown address, pending address, connected victim, connected bystander; clients requesting, responding, connected, disconnected) and presents non-authentic datagrams to the server from every source-address class and to every client: mutations (bit flips in prefix / sequence / body / tag, truncations, extensions, prefix replacement) of genuine datagrams of any session and direction, genuine datagrams replayed or presented at the wrong endpoint, well-formed prefixes with boundary lengths and all-zero / all-ff sequence bytes, random bytes 0..1400; silence is interleaved so a refreshed timer shows. Enumerated: all 256 prefix bytes x 13 boundary lengths x 2 fills x 7 targets; every single-bit flip and every truncation of eight fresh genuine datagrams (payload, keep-alive, response, challenge, request; both directions) presented to the live endpoint they were meant for. Tokens: raw bytes and field-wise mutations of valid serialisations (address count 0/33/2^32-1, type tags 0/1/2/3/255, expire < create, zero/negative timeouts, truncations) through ConnectToken::read -> NetcodeClient::new -> update / process_packet / generate_payload_packet / disconnect. Oracles: no call unwinds (overflow checks on); a non-authentic datagram (by provenance) yields neither Payload nor ClientConnected nor ClientDisconnected, client process_packet returns None, and the snapshot of clients_id / connected_clients / per-client addr, user data, connectedness and time_since_last_received_packet (server) and connected / connecting / reason / time_since_last_received_packet / server_addr (every client) is unchanged; afterwards a genuine payload still surfaces in both directions and the pending client completes its handshake. Non-trivial: a datagram of >= 18 bytes presented from a known address or to a client past the request state (reaches the keyed decode path), or a mutated token that parses. Distinct = hash of the decoded case.".into()
     }
     fn assumptions(&self) -> Vec<String> {
         vec![
@@ -447,15 +447,40 @@ impl Property for C07 {
         PbtCfg { cases: tier.pick(150_000, 3_000_000), max_len: tier.pick(600, 1800), shrink_ms: 120_000 }
     }
     fn required_labels(&self) -> Vec<&'static str> {
-        vec!["keyed_path", "at_unknown", "at_pending", "at_connected", "at_client", "token_case", "token_parsed"]
+        vec!["keyed_path", "at_unknown", "at_pending", "at_connected", "at_client", "token_case", "token_parsed", "flood"]
     }
     fn enums(&self, _tier: Tier) -> Vec<(&'static str, u64)> {
         // genuine_tamper: 8 sample datagrams x (every bit of the first 360 bytes + every truncation up to 360)
-        vec![("prefix_length_grid", 256 * 13 * 2 * 7), ("genuine_tamper", 8 * (360 * 8 + 360))]
+        vec![("prefix_length_grid", 256 * 13 * 2 * 7), ("genuine_tamper", 8 * (360 * 8 + 360)), ("floods", 13 * 2 * 7)]
     }
     fn run_enum(&self, name: &str, index: u64, ctx: &mut Ctx) -> Outcome {
         if name == "genuine_tamper" {
             return genuine_tamper(index, ctx);
+        }
+        if name == "floods" {
+            // the same endpoint is handed all 256 prefix bytes twice in a row (512 hostile datagrams, nothing genuine in between):
+            // whatever an endpoint counts or remembers about rejected datagrams must not wear out
+            let li = (index % 13) as usize;
+            let fill = if (index / 13) % 2 == 0 { 0x00u8 } else { 0xff };
+            let target = Target::all()[((index / 26) % 7) as usize];
+            ctx.op(&("flood", li, fill, target));
+            let mut nw = stage(7, 15)?;
+            for round in 0..2 {
+                for prefix in 0..=255u8 {
+                    let seqlen = (prefix >> 4) as usize;
+                    let lens = [0, 1, 17, 18, 19, 1 + seqlen, 1 + seqlen + 15, 1 + seqlen + 16, 1 + seqlen + 17, 1077, 1078, 1079, 1400];
+                    let len = lens[li];
+                    let mut b = vec![fill; len];
+                    if len > 0 {
+                        b[0] = prefix;
+                    }
+                    present_forged(&mut nw, target, &b, &format!("flood round {round}: prefix {prefix:#04x} len {len} fill {fill:#04x}"))?;
+                }
+            }
+            still_works(&mut nw)?;
+            ctx.label("flood");
+            ctx.nontrivial = true;
+            return Ok(());
         }
         let prefix = (index % 256) as u8;
         let li = ((index / 256) % 13) as usize;
